@@ -217,6 +217,9 @@ class HttpSource(Source[Union[str,Iterable[str]]]):
 class DelimSource(Source[Iterable[str]]):
     """Chunk an Iterable[str] by delimeter."""
 
+    #the line boundaries recognized by str.splitlines
+    _line_ends = '\n\r\v\f\x1c\x1d\x1e\x85\u2028\u2029'
+
     def __init__(self, source: Source[Iterable[str]], delimeter:str = None) -> None:
         self._source = source
         self._delim  = delimeter
@@ -227,13 +230,21 @@ class DelimSource(Source[Iterable[str]]):
         delim       = self._delim
 
         if split_lines:
+            after_cr  = False
+            line_ends = self._line_ends
             for text in filter(None,self._source.read()):
+                if after_cr and text[0] == '\n':
+                    #the previous text ended with the '\r' of this '\r\n'
+                    text = text[1:]
+                after_cr = False
+                if not text: continue
                 lines = text.splitlines()
                 if pending:
                     lines[0] = pending + lines[0]
                     pending = None
-                if text[-1] not in '\r\n':
+                if text[-1] not in line_ends:
                     pending = lines.pop()
+                after_cr = text[-1] == '\r'
                 yield from lines
         else:
             for text in filter(None,self._source.read()):
